@@ -11,7 +11,8 @@ Local Open Scope N_scope.
 Definition obj_ok (se : session) : Prop :=
   forall id st, lookup id (se_objs se) = Some st ->
     st_closed st = pclosed (st_rb st) /\
-    (st_closed st = false -> lookup id (se_tab se) = Some true).
+    (st_closed st = false -> lookup id (se_tab se) = Some true) /\
+    (se_closed se = false -> lookup id (se_tab se) <> None).
 Definition closed_ok (se : session) : Prop :=
   se_closed se = true -> forall id st, lookup id (se_objs se) = Some st -> st_closed st = true.
 Definition broken_ok (se : session) : Prop := se_broken se = true -> se_closed se = true.
@@ -46,11 +47,12 @@ Lemma WFse_upd_obj se id st' :
   st_closed st' = pclosed (st_rb st') ->
   (st_closed st' = false -> lookup id (se_tab se) = Some true) ->
   (se_closed se = true -> st_closed st' = true) ->
+  (se_closed se = false -> lookup id (se_tab se) <> None) ->
   WFse (upd_objs se (update id st' (se_objs se))).
 Proof.
-  intros (Ho & Hc & Hb) H1 H2 H3. destruct se; cbn in *. split; [|split].
+  intros (Ho & Hc & Hb) H1 H2 H3 H4. destruct se; cbn in *. split; [|split].
   - intros id0 st Hl. cbn in Hl. rewrite lookup_update in Hl. destruct (id0 =? id) eqn:E.
-    + injection Hl as <-. assert (id0 = id) by lia; subst. split; [exact H1|exact H2].
+    + injection Hl as <-. assert (id0 = id) by lia; subst. split; [exact H1|split; [exact H2|exact H4]].
     + apply (Ho _ _ Hl).
   - intros Hcl id0 st Hl. cbn in Hl. rewrite lookup_update in Hl. destruct (id0 =? id).
     + injection Hl as <-. auto.
@@ -61,8 +63,9 @@ Qed.
 Lemma WFse_tab_true se id : WFse se -> WFse (upd_tab se (update id true (se_tab se))).
 Proof.
   intros (Ho & Hc & Hb). destruct se; cbn in *. split; [|split]; try assumption.
-  intros id0 st Hl. cbn in Hl. destruct (Ho _ _ Hl) as [H1 H2]. split; [exact H1|].
-  intros Hop. cbn. rewrite lookup_update. destruct (id0 =? id); [reflexivity|]. apply (H2 Hop).
+  intros id0 st Hl. cbn in Hl. destruct (Ho _ _ Hl) as (H1 & H2 & H3). split; [exact H1|split].
+  - intros Hop. cbn. rewrite lookup_update. destruct (id0 =? id); [reflexivity|]. apply (H2 Hop).
+  - intros Hcl. cbn. rewrite lookup_update. destruct (id0 =? id); [discriminate|]. apply (H3 Hcl).
 Qed.
 
 Lemma WFse_tab_false se id :
@@ -70,10 +73,11 @@ Lemma WFse_tab_false se id :
   WFse (upd_tab se (update id false (se_tab se))).
 Proof.
   intros (Ho & Hc & Hb) Hcl. destruct se; cbn in *. split; [|split]; try assumption.
-  intros id0 st Hl. cbn in Hl. destruct (Ho _ _ Hl) as [H1 H2]. split; [exact H1|].
-  intros Hop. cbn. rewrite lookup_update. destruct (id0 =? id) eqn:E.
-  - assert (id0 = id) by lia; subst. rewrite (Hcl _ Hl) in Hop. discriminate.
-  - apply (H2 Hop).
+  intros id0 st Hl. cbn in Hl. destruct (Ho _ _ Hl) as (H1 & H2 & H3). split; [exact H1|split].
+  - intros Hop. cbn. rewrite lookup_update. destruct (id0 =? id) eqn:E.
+    + assert (id0 = id) by lia; subst. rewrite (Hcl _ Hl) in Hop. discriminate.
+    + apply (H2 Hop).
+  - intros Hc'. cbn. rewrite lookup_update. destruct (id0 =? id); [discriminate|]. apply (H3 Hc').
 Qed.
 
 Lemma WFse_count se n : WFse se -> WFse (upd_count se n).
@@ -92,7 +96,7 @@ Lemma sweep_spec tab : forall objs cnt,
   let '(t', o', c') := sweep tab objs cnt in
   (forall id st', lookup id o' = Some st' ->
      exists st, lookup id objs = Some st /\
-       (st' = st \/ st' = mkS (st_seq st) (st_wcl st) true (rb_close (st_rb st)))) /\
+       (st' = st \/ (st_closed st = false /\ st' = mkS (st_seq st) (st_wcl st) true (rb_close (st_rb st))))) /\
   (forall id st, lookup id objs = Some st -> exists st', lookup id o' = Some st') /\
   (forall id st, In (id, true) tab -> lookup id objs = Some st ->
      exists st', lookup id o' = Some st' /\ st_closed st' = true).
@@ -109,7 +113,7 @@ Proof.
         -- split; [|split].
            ++ intros id1 st' Hl. rewrite lookup_update in Hl. destruct (id1 =? id) eqn:E.
               ** assert (id1 = id) by lia; subst. injection Hl as <-.
-                 destruct (I1 _ _ E0) as (st & Hs & [-> | ->]); exists st; split; auto.
+                 destruct (I1 _ _ E0) as (st & Hs & [-> | [_ ->]]); exists st; split; auto; cbn in Ecl; discriminate.
               ** apply I1; exact Hl.
            ++ intros id1 st Hl. rewrite lookup_update. destruct (id1 =? id); eauto.
            ++ intros id1 st1 [Heq|Hin] Hl.
@@ -135,13 +139,13 @@ Proof.
     destruct (sweep (se_tab se) (se_objs se) (se_count se)) as [[t' o'] c']. destruct Hs as (S1 & S2 & S3).
     cbn. split; [|reflexivity].
     assert (Hall : forall id st', lookup id o' = Some st' -> st_closed st' = true /\ st_closed st' = pclosed (st_rb st')).
-    { intros id st' Hl. destruct (S1 _ _ Hl) as (st & Hst & [-> | ->]).
-      - destruct (Ho _ _ Hst) as [H1 H2]. destruct (st_closed st) eqn:E; [auto|].
+    { intros id st' Hl. destruct (S1 _ _ Hl) as (st & Hst & [-> | [_ ->]]).
+      - destruct (Ho _ _ Hst) as (H1 & H2 & _). destruct (st_closed st) eqn:E; [auto|].
         specialize (H2 eq_refl). apply lookup_In in H2.
         destruct (S3 _ _ H2 Hst) as (st2 & Hl2 & Hc2). rewrite Hl in Hl2. injection Hl2 as <-. congruence.
       - cbn. auto. }
     split; [|split].
-    + intros id st Hl. cbn in Hl. destruct (Hall _ _ Hl) as [Hx Hy]. split; [exact Hy|]. intros Hop. congruence.
+    + intros id st Hl. cbn in Hl. destruct (Hall _ _ Hl) as [Hx Hy]. split; [exact Hy|split; [intros Hop; congruence|intros Hf; discriminate Hf]].
     + intros _ id st Hl. cbn in Hl. apply (Hall _ _ Hl).
     + intros _. reflexivity.
 Qed.
@@ -316,9 +320,9 @@ Proof.
   set (y1 := set_sess y s _) in H.
   assert (Hwf1 : WF y1).
   { unfold y1. pose proof (WF_sess y s Hwf) as Hse. destruct Hse as (Ho & Hc & Hb).
-    destruct (Ho _ _ El) as [H1 H2].
+    destruct (Ho _ _ El) as (H1 & H2 & H3).
     apply WF_set_sess; [exact Hwf| | |].
-    - apply WFse_upd_obj; [split; [exact Ho|split; [exact Hc|exact Hb]]|exact H1|exact H2|].
+    - apply WFse_upd_obj; [split; [exact Ho|split; [exact Hc|exact Hb]]|exact H1|exact H2| |exact H3].
       intros Hcl. cbn. eapply Hc; eauto.
     - destruct (sess y s); reflexivity.
     - destruct (sess y s); cbn; auto. }
@@ -398,7 +402,8 @@ Proof.
   { unfold y1. rewrite sess_set_same. destruct (sess y s); cbn. apply lookup_update_eq. }
   assert (Hwf1 : WF y1).
   { unfold y1. apply WF_set_sess; [exact Hwf| | |].
-    - apply WFse_upd_obj; [apply WF_sess; exact Hwf|reflexivity|discriminate|reflexivity].
+    - apply WFse_upd_obj; [apply WF_sess; exact Hwf|reflexivity|discriminate|reflexivity|].
+      destruct (WF_sess y s Hwf) as (Ho & _ & _). destruct (Ho _ _ El) as (_ & _ & H3). exact H3.
     - destruct (sess y s); reflexivity.
     - destruct (sess y s); cbn; auto. }
   destruct (if active then stream_emit y1 s sid [] ch else (y1, ch, [], true)) as [[[y2 ch2] evs2] ok] eqn:Ee.
@@ -455,8 +460,8 @@ Proof.
   intros (Ho & Hc & Hb) H1 H3. split; [|split].
   - intros id0 st Hl. cbn in Hl. rewrite lookup_update in Hl. cbn. rewrite lookup_update.
     destruct (id0 =? id) eqn:E.
-    + injection Hl as <-. split; [exact H1|reflexivity].
-    + destruct (Ho _ _ Hl) as [Ha Hb']. split; [exact Ha|exact Hb'].
+    + injection Hl as <-. split; [exact H1|split; [reflexivity|discriminate]].
+    + destruct (Ho _ _ Hl) as (Ha & Hb' & Hc'). split; [exact Ha|split; [exact Hb'|exact Hc']].
   - intros Hcl id0 st Hl. cbn in Hl, Hcl. rewrite lookup_update in Hl. destruct (id0 =? id).
     + injection Hl as <-. auto.
     + eapply Hc; eauto.
@@ -467,9 +472,9 @@ Lemma WF_store_rb y0 s sid st rb' :
   WF y0 -> lookup sid (se_objs (sess y0 s)) = Some st -> pclosed rb' = pclosed (st_rb st) ->
   WF (set_sess y0 s (upd_objs (sess y0 s) (update sid (st_set_rb st rb') (se_objs (sess y0 s))))).
 Proof.
-  intros Hwf0 El Hpc. destruct (WF_sess y0 s Hwf0) as (Ho & Hc & Hb). destruct (Ho _ _ El) as [H1 H2].
+  intros Hwf0 El Hpc. destruct (WF_sess y0 s Hwf0) as (Ho & Hc & Hb). destruct (Ho _ _ El) as (H1 & H2 & H3).
   apply WF_set_sess; [exact Hwf0| | |].
-  - apply WFse_upd_obj; [split; [exact Ho|split; [exact Hc|exact Hb]]| | |].
+  - apply WFse_upd_obj; [split; [exact Ho|split; [exact Hc|exact Hb]]| | | |exact H3].
     + cbn. rewrite Hpc. exact H1.
     + exact H2.
     + intros Hcl. cbn. eapply Hc; eauto.
@@ -574,9 +579,9 @@ Proof.
   pose proof (rb_read_pclosed (st_rb st) (S k)) as Hpc.
   destruct (rb_read (st_rb st) (S k)) as [rb' [dd| |]]; cbn in Hpc; try discriminate;
     injection H as <- <- <-; try exact Hwf.
-  destruct (WF_sess y s Hwf) as (Ho & Hc & Hb). destruct (Ho _ _ El) as [H1 H2].
+  destruct (WF_sess y s Hwf) as (Ho & Hc & Hb). destruct (Ho _ _ El) as (H1 & H2 & H3).
   apply WF_set_sess; [exact Hwf| | |].
-  - apply WFse_upd_obj; [split; [exact Ho|split; [exact Hc|exact Hb]]| | |].
+  - apply WFse_upd_obj; [split; [exact Ho|split; [exact Hc|exact Hb]]| | | |exact H3].
     + cbn. rewrite Hpc. exact H1.
     + exact H2.
     + intros Hcl. cbn. eapply Hc; eauto.
@@ -720,7 +725,7 @@ Proof.
   unfold try_read. intros Hwf H.
   destruct (lookup sid (se_objs (sess y s))) as [st|] eqn:El; [|discriminate].
   destruct k; [discriminate|].
-  destruct (WF_sess y s Hwf) as (Ho & Hc & _). destruct (Ho _ _ El) as [H1 _].
+  destruct (WF_sess y s Hwf) as (Ho & Hc & _). destruct (Ho _ _ El) as (H1 & _ & _).
   unfold rb_read in H. destruct (pipe (st_rb st)); [|discriminate].
   destruct (pclosed (st_rb st)) eqn:Ep; [discriminate|].
   destruct (se_closed (sess y s)) eqn:Ecl; [|reflexivity].
@@ -771,7 +776,7 @@ Lemma closed_session_streams y s :
     st_closed st = true /\ pclosed (st_rb st) = true.
 Proof.
   intros Hwf Hcl sid st El. destruct (WF_sess y s Hwf) as (Ho & Hc & _).
-  specialize (Hc Hcl _ _ El). destruct (Ho _ _ El) as [H1 _]. split; [exact Hc|congruence].
+  specialize (Hc Hcl _ _ El). destruct (Ho _ _ El) as (H1 & _ & _). split; [exact Hc|congruence].
 Qed.
 
 Lemma closed_session_read_never_blocks y s sid k :
